@@ -50,6 +50,9 @@ structure SiftContract (ext : Nat → Nat) : Prop where
       m'.nvars = m.nvars ∧
       (∀ s, m'.tbl.vars.contains s = m.tbl.vars.contains s) ∧
       ∀ u : Int, HeldX ext u → ∀ σ, denN m'.tbl u σ = denN m.tbl u σ
+  /-- sifting does not touch the recorded roots -/
+  roots : ∀ (m m' : Mgr), DynInv ext m → m.lastLen = none →
+    reorder none m = (.ok (), m') → m'.roots = m.roots
 
 /-- how the table `t'` seen by the retry relates to the table `t` of the call: both orders are
 bijections on the same declared names, and the operands are still there with the same meaning
@@ -93,6 +96,8 @@ structure DynPostG {α} (ext : Nat → Nat) (Doc : Tbl → α → Tbl → Prop) 
   names : ∀ s, m'.tbl.vars.contains s = m.tbl.vars.contains s
   /-- every reference the user holds is still there and denotes the same function by name -/
   held : ∀ w, HeldX ext w → m'.tbl.Mem w ∧ ∀ σ, denN m'.tbl w σ = denN m.tbl w σ
+  /-- the recorded roots are untouched -/
+  roots : m'.roots = m.roots
 
 /-- GENERIC transparency of `_try_to_reorder`.  `f` is any body such that, inside a context, in
 every state satisfying the invariant (with `Pre` on its table and the operands `ops` present)
@@ -118,7 +123,10 @@ theorem tryToReorder_transparent {α} (ext : Nat → Nat) (hS : SiftContract ext
   · -- no request fired
     refine ⟨r, { m1 with ctx := m.ctx }, tryToReorder_ok f m r m1 he, ?_⟩
     have hs' : StepK m { m1 with ctx := m.ctx } := hs.ofCtx true
-    refine ⟨hD.step hs', hdoc1, ?_, hs'.names, ?_⟩
+    refine ⟨hD.step hs', hdoc1, ?_, hs'.names, ?_, ?_⟩
+    rotate_left 2
+    · show m1.roots = m.roots
+      rw [hs.frame.roots]
     · show m1.lastLen.isSome = m.lastLen.isSome
       rw [hs.frame.lastLen]
     · intro w hw
@@ -159,7 +167,14 @@ theorem tryToReorder_transparent {α} (ext : Nat → Nat) (hS : SiftContract ext
       have h := hD3.step hs5
       exact ⟨⟨h.inv.wf, h.inv.pred, h.inv.freeGe, h.inv.free, h.inv.refOne, h.inv.refDom, h.inv.cache⟩,
         h.order, h.refs.congr rfl rfl, h.ctx, h.sched, h.roots, h.nvars⟩
-    refine ⟨hD5, hdoc _ _ _ _ hB hpre0 hdoc4, ?_, ?_, ?_⟩
+    refine ⟨hD5, hdoc _ _ _ _ hB hpre0 hdoc4, ?_, ?_, ?_, ?_⟩
+    rotate_left 3
+    · show m4.roots = m.roots
+      rw [hs4.frame.roots]
+      show m3.roots = m.roots
+      rw [hS.roots m2 m3 hD2 rfl hre]
+      show m1.roots = m.roots
+      rw [hs.frame.roots]
     · show (some (Gen.growthFactor * m3.len)).isSome = m.lastLen.isSome
       have := ha.2
       rw [show ({ m with ctx := true } : Mgr).lastLen = m.lastLen from rfl] at this
